@@ -119,7 +119,7 @@ Definition bulk_pull (s : source) (i : dev) : line * source * dev * N :=
   | _ => byte_pull s i
   end.
 
-Definition bulk_ops : input_ops dev source := mkOps dev source bulk_pull read_text slurp_all.
+Definition bulk_ops : input_ops dev source := mkOps dev source bulk_pull read_text slurp_all nest_stub.
 
 (* a parser that, like the real lexer, is only interested in the text up to
    the first newline of what it is given *)
@@ -229,3 +229,52 @@ Example ex_pending :
                           20 20 SrcStdin [[116;10; 112;10]])
     = (0, 0, 4, [Ev 0 [[120]] 0 2; Ev 0 [[112]] 0 4]).
 Proof. split; vm_compute; reflexivity. Qed.
+
+(* ------------------------------------------------------------------ *)
+(* Nested read-eval loops.  A line starting with `e` is `eval` of the fixed
+   four-line text  p / r / ) / p : probe, read a line of the OUTER standard
+   input, syntax error, (never reached) probe. *)
+Definition toy_inner : list line := [[112;10]; [114;10]; [41;10]; [112;10]].
+
+Definition toyn (sts : list pstate) (fed : list line) : pres :=
+  match fed with
+  | [101 :: _] => PComplete (CNest (NMem toy_inner)) false
+  | _ => toy sts fed
+  end.
+
+(* "e\nxy\np\n": the inner probe sees position 2 (after the eval line), the
+   inner read takes "xy\n", the inner syntax error interrupts the script: the
+   outer `p` never runs; the earlier inner commands have taken effect. *)
+Definition ex_nested : list N := [101;10; 120;121;10; 112;10].
+
+Example ex_nested_run :
+  obs_of_final (decode_final (nmodel_run toyn 1 30 30 SrcStdin (chunk [1;1;2]%nat ex_nested))) =
+  (1, 2, 5, [Ev 0 [[112]] 0 2]).
+Proof. vm_compute. reflexivity. Qed.
+
+(* at level 0 the nested loop is not entered: the distinct out-of-fuel value *)
+Example ex_nested_level0 :
+  f_tag (decode_final (nmodel_run toyn 0 30 30 SrcStdin [ex_nested])) = FOutOfFuel.
+Proof. vm_compute. reflexivity. Qed.
+
+Definition ex_x0 : xstate (I:=dev) := mkX (mkSh (mkP [] false) [] 0) [[120;121;10; 112;10]] 2 [].
+
+(* hypotheses of nested_syntax_error_keeps_earlier_effects (k = 2) *)
+Example ex_nested_syntax_hyps :
+  nsrc_empty (NMem toy_inner) = false /\ (2 < 30)%nat /\
+  exists m, iterx_n (byte_ops_at toyn 30 30 0) toyn 2 30
+              (mkM ex_x0 (byte_src (NMem toy_inner)) false false [] []) = inl m /\
+            x_off (m_x m) = 5 /\
+            exists y, iterx (byte_ops_at toyn 30 30 0) toyn 30 m = inr (FSyntax, y).
+Proof.
+  split; [reflexivity|]. split; [lia|].
+  eexists. split; [vm_compute; reflexivity|]. split; [reflexivity|].
+  eexists. vm_compute. reflexivity.
+Qed.
+
+(* hypotheses of nested_iteration_runs_one_command / nested_parse_leaves_stdin *)
+Example ex_nested_iteration_hyps :
+  byte_src (NMem toy_inner) <> SrcStdin /\
+  exists m', iterx (byte_ops_at toyn 30 30 0) toyn 30
+               (mkM ex_x0 (byte_src (NMem toy_inner)) false false [] []) = inl m'.
+Proof. split; [discriminate|]. eexists. vm_compute. reflexivity. Qed.
